@@ -7,7 +7,7 @@ LEVEL = "proof"
 RULE = ("histories (time steps with value changes) are driven through wavemem::Encoder (hook) and printed as VCD "
         "files loaded single-/multi-threaded and through the reader; sizes 1, 2, 65534..65537, 131069..131072 "
         "(+200000 in thorough) time steps and random small histories with repeated, backwards and late-start "
-        "timestamps and values before the first timestamp. Oracle: table == accepted(times) computed from the "
+        "timestamps, values before the first timestamp, a repeated/backwards timestamp directly after exactly k*65535 accepted steps, and files ending directly after a timestamp. Oracle: table == accepted(times) computed from the "
         "abstract history, strictly increasing, every signal index valid and non-decreasing. Non-trivial: the "
         "history has >= 2 accepted steps and (a repeated/backwards timestamp, or crosses a 65535 boundary, or has an "
         "implicit first step); distinct = distinct case lines.")
@@ -91,6 +91,21 @@ def run(res, rng, tier, model_ok, replay=None):
                 for mode in (["st", "rd"] if tier == "quick" else ["st", "rd", "mt:4:0"]):
                     l2, e2, _ = gen.vcd_case(rng, mode, sigs, steps, False, ws="plain", regime="dense")
                     cases.append({"line": l2, "expect": e2, "key": nontrivial_key(l2, steps, False), "klass": "vcd-big-" + mode.split(":")[0], "pred": monitor})
+        # exactly k*65535 accepted steps followed by a repeated / backwards / equal-to-earlier timestamp
+        for k in ([1, 2] if tier == "quick" else [1, 2, 3]):
+            for kind in ("repeat", "back", "back-then-forward"):
+                sigs, steps = big_history(k * 65535)
+                last = steps[-1][0]
+                extra = {"repeat": [(last, [(0, "x")]), (last + 5, [(0, "0")])],
+                         "back": [(last - 3, [(0, "x")]), (last + 5, [(0, "0")])],
+                         "back-then-forward": [(3, [(0, "z")]), (last, [(0, "x")]), (last + 1, [(0, "1")])]}[kind]
+                steps = steps + extra
+                table, out = gen.expected_obs(sigs, steps, False)
+                exp = gen.obs_string(table, out)
+                line = gen.enc_case(rng, sigs, steps)
+                cases.append({"line": line, "expect": exp, "key": ("boundary", k, kind), "klass": "enc-boundary-" + kind, "pred": monitor})
+                l2, e2, _ = gen.vcd_case(rng, "st", sigs, steps, False, ws="plain", regime="dense")
+                cases.append({"line": l2, "expect": e2, "key": ("boundary-vcd", k, kind), "klass": "vcd-boundary-" + kind, "pred": monitor})
         nsmall = 400 if tier == "quick" else 5000
         for _ in range(nsmall):
             sigs, steps, imp = gen.gen_history(rng, max_steps=14)
@@ -113,7 +128,7 @@ def run(res, rng, tier, model_ok, replay=None):
                 cases.append({"line": line, "expect": exp, "key": nontrivial_key(line, steps, imp), "klass": "enc-small", "pred": monitor})
             else:
                 mode = rng.choice(["st", "rd", "hc"])
-                line, exp, _ = gen.vcd_case(rng, mode, sigs, steps, imp)
+                line, exp, _ = gen.vcd_case(rng, mode, sigs, steps, imp, strip_end=(rng.random() < 0.3))
                 cases.append({"line": line, "expect": exp, "key": nontrivial_key(line, steps, imp), "klass": "vcd-small-" + mode, "pred": monitor})
     vcdfam.run_both(res, cases, "c02", model_ok, timeout=1200)
     res.samples = [c["line"][:300] for c in cases[-3:]] + [cases[0]["line"][:300]]
